@@ -461,18 +461,26 @@ Print Assumptions C01_dedup_keeps_collection.
 
 (* a removal whose own mutation the caching feed deduplicated (its sequence is only listed in
    recent_sequences, still expected by the cache or already skipped) is reconstructed and reaches the
-   cache of the channel the document left, with the sequence and revision the channel query returns
-   -- but never with the Deleted flag: for a deduplicated DELETION the statement "it is the entry the
-   query returns" is false in the unchanged code (C01_Refuted.v, monitor signature
-   dedup_reconstruction/deduplicated-deletion-removal-lacks-deleted-flag) *)
+   cache of the channel the document left, with the sequence and revision the channel query returns *)
 Theorem C01_dedup_delivers_removal : forall coll doc sd next skipped c s rv dl,
   In (c, Some (s, rv, dl)) (sd_chans sd) ->
   (forall c' rv' dl', In (c', Some (s, rv', dl')) (sd_chans sd) -> rv' = rv) ->
   In s (sd_recent sd) -> s < current_seq sd ->
   (next <= s \/ In s skipped) ->
-  In (coll, c, (s, doc, rv, true, false)) (flat_map to_caches (doc_changed coll doc sd next skipped)).
+  exists d, In (coll, c, (s, doc, rv, true, d)) (flat_map to_caches (doc_changed coll doc sd next skipped)).
 Proof. exact dedup_delivers_removal. Qed.
 Print Assumptions C01_dedup_delivers_removal.
+
+(* FULL: it IS the entry the channel query returns for the document, Deleted flag included -- the code
+   as repaired by commit 1bb148f ([doc_changed] = [doc_changed_gen true]); for the code before the
+   repair the statement is refuted in C01_Refuted.v *)
+Theorem C01_dedup_removal_is_query_entry : forall coll doc sd next skipped c s rv dl,
+  In (c, Some (s, rv, dl)) (sd_chans sd) ->
+  (forall c' rv' dl', In (c', Some (s, rv', dl')) (sd_chans sd) -> rv' = rv /\ dl' = dl) ->
+  In s (sd_recent sd) -> s < current_seq sd -> (next <= s \/ In s skipped) ->
+  In (coll, c, (s, doc, rv, true, dl)) (flat_map to_caches (doc_changed coll doc sd next skipped)).
+Proof. exact dedup_removal_is_query_entry. Qed.
+Print Assumptions C01_dedup_removal_is_query_entry.
 
 Theorem C01_dedup_delivers_current : forall coll doc sd next skipped c,
   In (c, None) (sd_chans sd) ->
@@ -484,7 +492,8 @@ Print Assumptions C01_dedup_delivers_current.
 Theorem C01_dedup_sound : forall coll doc sd next skipped coll' c s d rv rm dl,
   In (coll', c, (s, d, rv, rm, dl)) (flat_map to_caches (doc_changed coll doc sd next skipped)) ->
   d = doc /\ ((s = sd_seq sd /\ rv = sd_rev sd /\ dl = sd_del sd /\ exists r, In (c, r) (sd_chans sd)) \/
-              (rm = true /\ dl = false /\ exists rv' dl', In (c, Some (s, rv', dl')) (sd_chans sd))).
+              (rm = true /\ (exists rv' dl', In (c, Some (s, rv', dl')) (sd_chans sd)) /\
+               (dl = true -> exists c' rv', In (c', Some (s, rv', true)) (sd_chans sd)))).
 Proof. exact dedup_sound. Qed.
 Print Assumptions C01_dedup_sound.
 
